@@ -189,8 +189,9 @@ def main(argv=None):
         ],
         "wall_s": round(wall, 1), "violations": len(violations),
     }
-    os.makedirs(os.path.join(VERIF, "evidence"), exist_ok=True)
-    json.dump(ev, open(os.path.join(VERIF, "evidence", pid + ".json"), "w"), indent=1, default=str)
+    evdir = os.environ.get("VERIF_EVIDENCE_DIR") or os.path.join(VERIF, "evidence")
+    os.makedirs(evdir, exist_ok=True)
+    json.dump(ev, open(os.path.join(evdir, pid + ".json"), "w"), indent=1, default=str)
 
     for ne in not_exhausted:
         print("NOT-EXHAUSTED property=%s %s (no counterexample on %s paths)" % (pid, ne["condition"], ne["paths_without_counterexample"]))
